@@ -193,7 +193,8 @@ inline bool backtrace_S(Rng& r, uint64_t idx)
           bool const named_ok = named ? (e.has_named && e.named == want) : (!e.has_named || e.named.empty());
           if (!p.payload_ok || (bi != bt_info.end() && bi->second.first != p.len) || !named_ok)
           {
-            violation("C18", !named_ok ? "replayed-statement-named-args-differ" : "replayed-statement-corrupt", J{}.unum("tid", p.tid).unum("seq", p.seq).unum("len", p.len).boolean("named", named).unum("pairs", e.named.size()).str("scenario", "backtrace_S").raw("cfg", w.describe()));
+            // run on behalf of C19 (--label C19): key/value pairs that are not the statement's own are that property's
+            violation((!named_ok && g_label == "C19") ? "C19" : "C18", !named_ok ? "replayed-statement-named-args-differ" : "replayed-statement-corrupt", J{}.unum("tid", p.tid).unum("seq", p.seq).unum("len", p.len).boolean("named", named).unum("pairs", e.named.size()).str("scenario", "backtrace_S").raw("cfg", w.describe()));
             ok = false;
             break;
           }
